@@ -99,10 +99,10 @@ def main():
             "add_only": True,
         },
         "engines": [{"name": "pv", "path": "/verif/engine", "serves_properties": [c["property_id"] for c in checks],
-                     "kind_free_text": "Rust crate: independent .slp encoder/decoder + spec tables, choice-stream generator driven by proptest (and libFuzzer in /verif/fuzz), per-property oracles, evidence writer"}],
+                     "kind_free_text": "Rust crate: independent .slp encoder/decoder + spec tables, choice-stream generator driven by proptest (and libFuzzer in /verif/engine/fuzz), per-property oracles, evidence writer"}],
         "checks": checks,
         "not_applicable": na,
-        "notes": "Property-based testing / fuzzing family. ./check <id> <tier> rebuilds the engine against /repo's working tree (content hash forces a peppi rebuild), replays regressions/<id>/*, then runs the enumerated and generated tiers. Exit 0 held / 1 VIOLATION / 2 inconclusive.",
+        "notes": "Property-based testing / fuzzing family. ./check <id> <tier> rebuilds the engine against /repo's working tree (content hash forces a peppi rebuild), replays regressions/<id>/*, then runs the enumerated and generated tiers. Exit 0 held / 1 VIOLATION / 2 inconclusive. Cross-cutting generated dimensions used by every check (DESIGN.md section 11, items 14-20): the reader/sink each peppi call goes through (short reads, BufReaders, short writes), deterministic call histories before a share of the cases (incl. calls that must fail), phases with every log call site live, and (C01/C06/C07/C11) the debug option; a failure is re-verified on a fresh thread and its replay file records the history and logging mode it needs.",
     }
     json.dump(man, open("MANIFEST.json", "w"), indent=1)
     print("checks:", len(checks), "not_applicable:", len(na))
